@@ -101,9 +101,13 @@ def cval(v):
 
 
 class Walker:
-    def __init__(self, timestamps=True, data=True):
+    def __init__(self, timestamps=True, data=True, seen=False):
         self.timestamps = timestamps
         self.data = data
+        # seen=True: every link ({"ref": id}) also carries "seen", a digest of what is visible THROUGH that link
+        # (the target's attributes, the names of its children and link targets, its data) - free of ids,
+        # timestamps and the target's own name, so that it is comparable between a source and its copy
+        self.seen = seen
         import nixio
         from nixio.container import Container, LinkContainer
         from nixio.dimensions import Dimension, DimensionContainer, DimensionLink
@@ -118,13 +122,70 @@ class Walker:
         self.Entity = Entity
         self.Feature = Feature
 
+    def ref(self, x):
+        if not self.seen:
+            return {"ref": x.id}
+        import json
+        try:
+            dig = hashlib.sha1(json.dumps(self.summary(x, top=True), sort_keys=True).encode("utf-8")).hexdigest()[:16]
+        except Exception as exc:  # noqa
+            dig = "raises " + type(exc).__name__
+        return {"ref": x.id, "seen": dig}
+
+    def _label(self, x):
+        if isinstance(x, self.Feature):
+            try:
+                return "feature:%s:%s" % (x.data.name, x.link_type.value)
+            except Exception as exc:  # noqa
+                return "feature:raises " + type(exc).__name__
+        return "%s:%s" % (type(x).__name__, getattr(x, "name", None))
+
+    def summary(self, o, top=False):
+        """shallow, id-free description of ``o`` as seen through the handle at hand"""
+        kind = type(o).__name__
+        node = {"kind": kind}
+        deny = DENY_PER_KIND.get(kind, ())
+        for name in class_props(type(o)):
+            if name in DENY or name in deny or name in ("id", "created_at", "updated_at") or (top and name == "name"):
+                continue
+            try:
+                with warnings.catch_warnings():
+                    warnings.simplefilter("ignore")
+                    v = getattr(o, name)
+                    if isinstance(v, self.DimensionContainer):
+                        node[name] = [self.summary(d) for d in v]
+                    elif isinstance(v, (self.LinkContainer, self.Container)):
+                        node[name] = [self._label(x) for x in v]
+                    elif isinstance(v, (self.Entity, self.Feature)):
+                        node[name] = self._label(v)
+                    elif isinstance(v, (self.Dimension, self.DimensionLink)):
+                        node[name] = self.summary(v)
+                    else:
+                        node[name] = cval(v)
+            except Exception as exc:  # noqa
+                node[name] = {"raises": type(exc).__name__}
+        if self.data and kind in ("DataArray", "DataFrame"):
+            try:
+                with warnings.catch_warnings():
+                    warnings.simplefilter("ignore")
+                    node["payload"] = carray(o[:])["sha1"]
+            except Exception as exc:  # noqa
+                node["payload"] = {"raises": type(exc).__name__}
+        if kind == "Section":
+            # properties are owned content without links of their own: values belong to what is seen
+            try:
+                node["props"] = [[p.name, cval(list(p.values))] for p in o.props]
+            except Exception as exc:  # noqa
+                node["props"] = {"raises": type(exc).__name__}
+        return node
+
     def value(self, v):
         if isinstance(v, self.LinkContainer):
-            return [{"ref": x.id} for x in v]
+            return [self.ref(x) for x in v]
         if isinstance(v, self.Container):
             return [self.obj(x) for x in v]
         if isinstance(v, (self.Entity, self.Feature)):
-            return {"ref": v.id}
+            return self.ref(v)
         if isinstance(v, self.DimensionLink):
             return self.obj(v)
         if isinstance(v, self.Dimension):
@@ -160,12 +221,12 @@ class Walker:
         return self.obj(f)
 
 
-def walk(nixfile, timestamps=True, data=True):
-    return Walker(timestamps, data).file(nixfile)
+def walk(nixfile, timestamps=True, data=True, seen=False):
+    return Walker(timestamps, data, seen).file(nixfile)
 
 
-def walk_obj(obj, timestamps=True, data=True):
-    return Walker(timestamps, data).obj(obj)
+def walk_obj(obj, timestamps=True, data=True, seen=False):
+    return Walker(timestamps, data, seen).obj(obj)
 
 
 # ------------------------------------------------------------------ comparison helpers
@@ -230,7 +291,7 @@ def refs(node, out=None):
     if out is None:
         out = []
     if isinstance(node, dict):
-        if set(node) == {"ref"}:
+        if "ref" in node and set(node) <= {"ref", "seen"}:
             out.append(node["ref"])
         else:
             for v in node.values():
